@@ -51,7 +51,26 @@ def concurrent_case(rng, tier):
     src = M(src["m"] + [["viaobj", S("${robj}")], ["vialist", S("${rlist}")], ["nest", M([("deep", A([S("${viaobj.a}"), S("${vialist.1}")]))])]])
     reads += [{"r": "get", "type": "String", "name": "nest.deep", "idx": 0}, {"r": "childview", "name": "nest", "idx": -1},
               {"r": "typed", "name": "vialist", "ty": "strings"}]
-    return {"k": "concurrent", "from": src, "opts": c["opts"], "merges": c["merges"], "ropts": ropts, "reads": reads,
+    # lists at several levels, elements removed before the readers start (spare capacity), and the config used as a merge
+    # source for pre-filled destinations under every list policy by all goroutines
+    src = M(src["m"] + [["lst", A([S("e%d" % i) for i in range(3 + rng.below(4))])],
+                        ["box", M([("inner", A([U(i) for i in range(2 + rng.below(4))])), ("k", S("v"))])]])
+    pre = []
+    for _ in range(rng.below(3)):
+        pre.append({"op": "remove", "name": rng.pick(["lst", "box.inner"]), "idx": rng.below(2), "opts": [opt("PathSep", ".")]})
+    dsts = []
+    for _ in range(1 + rng.below(3)):
+        dsts.append({"from": M([("lst", A([S("t%d" % i) for i in range(rng.below(3))])), ("box", M([("inner", A([U(90 + i) for i in range(rng.below(3))]))]))]),
+                     "copts": [opt("PathSep", ".")], "opts": [opt("PathSep", "."), opt("VarExp")] + rng.pick([[opt("Prepend")], [opt("Append")], [], [opt("ReplaceArr")]])})
+    # parts of the config come from different sources: references carry their own metadata
+    merges = list(c["merges"])
+    if rng.chance(0.6):
+        names2 = [k for k, _ in src["m"] if not k.startswith("via") and k not in ("nest", "lst", "box")]
+        if names2:
+            tgt = rng.pick(names2)
+            merges.append({"b": M([("overlay", S("${%s}" % tgt)), ("ovobj", S("${box}"))]), "opts": c["opts"] + [{"o": "MetaData", "v": "overlay.yml"}]})
+            reads += [{"r": "get", "type": "String", "name": "overlay", "idx": -1}, {"r": "childview", "name": "ovobj", "idx": -1}]
+    return {"k": "concurrent", "from": src, "opts": c["opts"], "merges": merges, "pre": pre, "dsts": dsts, "ropts": ropts, "reads": reads,
             "goroutines": 4 + rng.below(5), "rounds": 2 + rng.below(3), "_tag": "concurrent", "_nt": True,
             "_sig": "conc|%s|%d" % (c.get("_tag", "refs"), len(reads))}
 
